@@ -134,13 +134,23 @@ def cloneAll (h : MH) : List Ref → MH × List Ref
     let rest := cloneAll h1 rs
     (rest.1, h.next :: rest.2)
 
-/-- the traits part of `metadataMergeInterceptor` as it is NOW: clone old.Traits, then merge the update's traits -/
+/-- `sort.Slice(newVal.Traits, by Name)`: reorders the (fresh) pointer slice, writes no message -/
+def insertByName (h : MH) (r : Ref) : List Ref → List Ref
+  | [] => [r]
+  | x :: xs => if (h.msg r).name < (h.msg x).name then r :: x :: xs else x :: insertByName h r xs
+
+def sortByName (h : MH) (rs : List Ref) : List Ref := rs.foldl (fun acc r => insertByName h r acc) []
+
+/-- the traits part of `metadataMergeInterceptor` as it is NOW: clone old.Traits, merge the update's traits, sort -/
 def mergeTraits (h : MH) (oldTraits : List Ref) (upd : List TMd) : MH × List Ref :=
   let c := cloneAll h oldTraits
-  mergeAll c.1 c.2 upd
+  let r := mergeAll c.1 c.2 upd
+  (r.1, sortByName r.1 r.2)
 
 /-- the pre-fix code merged into old.Traits' elements themselves -/
-def mergeTraitsLegacy (h : MH) (oldTraits : List Ref) (upd : List TMd) : MH × List Ref := mergeAll h oldTraits upd
+def mergeTraitsLegacy (h : MH) (oldTraits : List Ref) (upd : List TMd) : MH × List Ref :=
+  let r := mergeAll h oldTraits upd
+  (r.1, sortByName r.1 r.2)
 
 /-! ### enter/leave: the seed edit -/
 
@@ -166,10 +176,58 @@ def parseNames (s : String) : List String := if s = "-" then [] else s.splitOn "
 
 def showNames (l : List String) : String := if l.isEmpty then "-" else ",".intercalate l
 
+/-- trait metadata list: `-` (empty) or `name:k=v,k=v;name:…`, an empty name written `~`, an empty map `.` -/
+def parseTMd (s : String) : TMd :=
+  match s.splitOn ":" with
+  | [n, m] =>
+    { name := if n = "~" then "" else n,
+      more := if m = "." then [] else (m.splitOn ",").filterMap fun kv =>
+        match kv.splitOn "=" with
+        | [k, v] => some (k, v)
+        | _ => none }
+  | _ => { name := s, more := [] }
+
+def parseTMds (s : String) : List TMd := if s = "-" then [] else (s.splitOn ";").map parseTMd
+
+def insertKV (kv : String × String) : List (String × String) → List (String × String)
+  | [] => [kv]
+  | x :: xs => if kv.1 < x.1 then kv :: x :: xs else x :: insertKV kv xs
+
+def showTMd (t : TMd) : String :=
+  let kvs := t.more.foldl (fun acc kv => insertKV kv acc) []
+  (if t.name = "" then "~" else t.name) ++ ":" ++
+    (if kvs.isEmpty then "." else ",".intercalate (kvs.map fun kv => kv.1 ++ "=" ++ kv.2))
+
+def showTMds (l : List TMd) : String := if l.isEmpty then "-" else ";".intercalate (l.map showTMd)
+
+/-- `rim merge <stored traits> <update traits>` → `result traits|stored traits afterwards` -/
+def handleMerge (old upd : String) (legacy : Bool) : String :=
+  let olds := parseTMds old
+  -- the stored trait messages occupy cells 0 … n-1
+  let h0 : MH := { msg := fun r => olds.getD r default, arr := fun _ => [], next := olds.length }
+  let refs := List.range olds.length
+  let r := if legacy then mergeTraitsLegacy h0 refs (parseTMds upd) else mergeTraits h0 refs (parseTMds upd)
+  showTMds (r.2.map r.1.msg) ++ "|" ++ showTMds (refs.map r.1.msg)
+
+/-- `rim seed <direction> <occupant|-> <enter total>` → `sent|stored afterwards` -/
+def handleSeed (d o t : String) (legacy : Bool) : String :=
+  match d.toNat?, t.toNat? with
+  | some d, some t =>
+    let ev : ELE := { direction := d, occupant := if o = "-" then none else some o, enterTotal := t }
+    let h0 : Heap ELE := fun _ => ev
+    let r := if legacy then seedEditLegacy h0 1 0 else seedEdit h0 1 0
+    let sh := fun (e : ELE) => s!"{e.direction},{e.occupant.getD "-"},{e.enterTotal}"
+    sh (r.1 r.2) ++ "|" ++ sh (r.1 0)
+  | _, _ => "!bad-op"
+
 /-- `rim union|remove <has names> <extra capacity> <names>`: answers `result|array-of-has-after`
 where the second part is the caller's backing array seen through its full capacity (nil slots `_`). -/
 def handleRim (toks : List String) : String :=
   match toks with
+  | ["merge", old, upd] => handleMerge old upd false
+  | ["merge-legacy", old, upd] => handleMerge old upd true
+  | ["seed", d, o, t] => handleSeed d o t false
+  | ["seed-legacy", d, o, t] => handleSeed d o t true
   | [op, has, extra, names] =>
     match extra.toNat? with
     | none => "!bad-op"
